@@ -136,7 +136,10 @@ func (evt *startEvent) Trigger(ctx context.Context) {
 		go evt.run(ctx, sender)
 	})
 
-	evt.mch <- startMessage{}
+	select {
+	case evt.mch <- startMessage{}:
+	case <-ctx.Done():
+	}
 }
 
 func (evt *startEvent) NextAction(ctx context.Context, flow Flow) chan IAction {
@@ -149,7 +152,13 @@ func (evt *startEvent) NextAction(ctx context.Context, flow Flow) chan IAction {
 	// buffered: the node sends one action per request and must not block on a token
 	// whose flow is gone (cancelled)
 	response := make(chan IAction, 1)
-	evt.mch <- nextActionMessage{response: response, flow: flow}
+	// the node's goroutine ends with the context: nobody may be left to take the
+	// token, which then leaves on its own cancellation (a nil channel never fires)
+	select {
+	case evt.mch <- nextActionMessage{response: response, flow: flow}:
+	case <-ctx.Done():
+		return nil
+	}
 	return response
 }
 
